@@ -288,3 +288,21 @@ def judge(records, tables_path, shards=16, heap="512m", timeout=3000):
     if missing:
         raise MachineryFailure(f"DecodeJudge: {len(missing)} records without verdict, e.g. {missing[:5]}")
     return verdicts, results
+
+
+_DEFINED = None
+
+
+def is_stub(msg):
+    """
+    A stub is a message whose identity has NO payload definition in the library's tables
+    (the specification's definition of Stub) - decided from the tables, not from the
+    message's string form, which no listed property fixes.
+    """
+    global _DEFINED
+    if _DEFINED is None:
+        from .export_tables import load_repo_tables
+
+        t = load_repo_tables()
+        _DEFINED = {str(k) for tn in ("get", "msm", "igs") for k in t[tn]}
+    return str(msg.identity) not in _DEFINED
